@@ -8,6 +8,8 @@ CONSTANTS
     CHi = 11
     Ks = {2}
     Ordered = TRUE
+    Adjacent = FALSE
+    FixCutoff = FALSE
     Replay = FALSE
     RMod = 1
 SPECIFICATION Spec
